@@ -50,11 +50,12 @@ DAC_BVLS::DAC_BVLS(uint tamCode, uint nLevels, std::vector<uint> *levelsIndex,
   this->nLevels = nLevels;
   this->levels = levels;
   this->bS = new BitSequenceRG(*bS, 4);
-  this->levelsIndex = new uint[nLevels];
+  this->levelsIndex = new uint[nLevels + 1];
   this->rankLevels = new uint[nLevels];
 
   for (uint i = 0; i < nLevels; i++)
     this->levelsIndex[i] = (*levelsIndex)[i];
+  this->levelsIndex[nLevels] = tamCode;
 
   this->rankLevels[0] = 0;
   for (uint i = 1; i < nLevels; i++)
